@@ -56,7 +56,7 @@ def capacity_pred(cfg, lines, obs):
     return out
 
 def run(ctx):
-    ok = ctx.lean(['AmcVerif.Props.C07'], extra_modules=['AmcVerif.Bridge.VecGlueBridge', 'AmcVerif.Bridge.VecHelpersBridge'])
+    ok = ctx.lean(['AmcVerif.Props.C07', 'AmcVerif.Props.C07b'], extra_modules=['AmcVerif.Bridge.VecGlueBridge', 'AmcVerif.Bridge.VecHelpersBridge'])
     n = 60 if ctx.tier == 'quick' else 400
     if not ok:
         n *= 3
